@@ -43,6 +43,8 @@ type opData struct {
 	rel    string // "", "all", "all+1"
 	fault  string
 	router bool
+	// bySymbol: the coin of the message carries the token's symbol as denom
+	bySymbol bool
 }
 
 // Driver implements mc.Driver.
@@ -108,6 +110,9 @@ func (d *Driver) Enabled(e *mc.Env, s *mc.State) []mc.Op {
 		add("feeswap(A,1e12,to=blocked)", opData{kind: "feeswap", who: "A", to: "feecollector", amt: e12})
 		add("feeswap-via-router(A,1e12)", opData{kind: "feeswap", who: "A", amt: e12, router: true})
 		add("feeswap-reverse(A,5)", opData{kind: "feeswap-rev", who: "A", amt: five})
+		// a third party issues a token whose SYMBOL equals the min unit of a swappable token (symbols and min
+		// units are unique only among themselves), with another scale
+		add("issue-lookalike(B,symbol="+unitA+",scale=18)", opData{kind: "lookalike", who: "B"})
 		return ops
 	}
 	for _, f := range []string{envseam.FaultNone, envseam.FaultCallError, envseam.FaultVMFailed, envseam.FaultWrongAmount, envseam.FaultBalanceErr} {
@@ -124,8 +129,14 @@ func (d *Driver) Enabled(e *mc.Env, s *mc.State) []mc.Op {
 	add("from-erc20(B,all,B)", opData{kind: "from", who: "B", to: "B", rel: "all"})
 	add("from-erc20(B,all+1,A)", opData{kind: "from", who: "B", to: "A", rel: "all+1"})
 	add("from-erc20(B,1,blocked)", opData{kind: "from", who: "B", to: "feecollector", amt: one})
+	// the same conversions naming the token by its SYMBOL instead of its min unit (no such coin exists)
+	add("from-erc20(B,1-by-symbol,A)", opData{kind: "from", who: "B", to: "A", amt: one, bySymbol: true})
+	add("to-erc20(A,1-by-symbol,B)", opData{kind: "to", who: "A", to: "B", amt: one, bySymbol: true})
 	add("hook-to-native(B,3,A)", opData{kind: "hook", who: "B", to: "A", amt: sdkmath.NewInt(3)})
 	add("hook-to-native(B,all+1,A)", opData{kind: "hook", who: "B", to: "A", rel: "all+1"})
+	// governance switches the ERC20 feature off / on: conversions attempted while it is off must fail as a whole
+	add("erc20-off", opData{kind: "switch", rel: "off"})
+	add("erc20-on", opData{kind: "switch", rel: "on"})
 	return ops
 }
 
@@ -172,6 +183,17 @@ func (d *Driver) Apply(e *mc.Env, s *mc.State, op mc.Op) []mc.Finding {
 	pre := d.ledger(e, s)
 	amt := od.amt
 	switch od.kind {
+	case "lookalike":
+		s.Deliver(e, op.Name, &v1.MsgIssueToken{Symbol: unitA, Name: "lookalike", MinUnit: "x" + unitA, Scale: 18, InitialSupply: 1, MaxSupply: 10, Mintable: false, Owner: mc.Addr(od.who).String()})
+		return nil
+	case "switch":
+		p := e.Token.GetParams(s.Ctx)
+		p.EnableErc20 = od.rel == "on"
+		s.Deliver(e, op.Name, &v1.MsgUpdateParams{Authority: mc.Authority().String(), Params: p})
+		if post := d.ledger(e, s); !same(pre, post) {
+			fs = append(fs, mc.F("C10/param-change-moved-value", "%s: ledgers changed: before %s after %s", op.Name, pre, post))
+		}
+		return fs
 	case "to", "from", "hook":
 		src := pre.native[od.who]
 		if od.kind != "to" {
@@ -188,12 +210,16 @@ func (d *Driver) Apply(e *mc.Env, s *mc.State, op mc.Op) []mc.Finding {
 			return nil
 		}
 		d.evm.Fault = od.fault
+		dn := unitA
+		if od.bySymbol {
+			dn = symA
+		}
 		var out mc.Outcome
 		switch od.kind {
 		case "to":
-			out = s.Deliver(e, op.Name, &v1.MsgSwapToERC20{Amount: mc.CI(unitA, amt), Sender: mc.Addr(od.who).String(), Receiver: eth(od.to).Hex()})
+			out = s.Deliver(e, op.Name, &v1.MsgSwapToERC20{Amount: mc.CI(dn, amt), Sender: mc.Addr(od.who).String(), Receiver: eth(od.to).Hex()})
 		case "from":
-			out = s.Deliver(e, op.Name, &v1.MsgSwapFromERC20{WantedAmount: mc.CI(unitA, amt), Sender: mc.Addr(od.who).String(), Receiver: addrOf(od.to).String()})
+			out = s.Deliver(e, op.Name, &v1.MsgSwapFromERC20{WantedAmount: mc.CI(dn, amt), Sender: mc.Addr(od.who).String(), Receiver: addrOf(od.to).String()})
 		default:
 			// what an EVM transaction calling the contract's swapToNative does: the contract burns the caller's
 			// ERC20 balance and emits SwapToNative; the token module's hook then mints natively — all atomically
